@@ -383,6 +383,22 @@ class Summariser:
         cur = self.expr(_load(node.target), st)
         v = self.expr(node.value, st)
         op = _OPS[type(node.op)]
+        if isinstance(node.target, ast.Name) and isinstance(node.op, ast.Add):
+            # `x += seq` on a local that aliases an object reachable from self (possibly on one arm of a conditional) extends that object
+            # in place when it is a list: record the possible mutation of the aliased object
+            def aliases(t):
+                if not isinstance(t, tuple) or not t:
+                    return []
+                if t[0] == "ite":
+                    return aliases(t[2]) + aliases(t[3])
+                if t[0] == "attr" and self.roots_in_self(t):
+                    return [t]
+                return []
+            def listy(t):
+                return N._seqish(t) or (isinstance(t, tuple) and t and t[0] == "ite" and (listy(t[2]) or listy(t[3])))
+            if listy(v) or listy(cur):
+                for a in aliases(cur):
+                    self.emit(st, "SELFWRITE", {"base": a, "attr": ["__iadd__"], "value": v}, node)
         self.assign(node.target, N.mk_bin(op, cur, v), st, node, aug=op)
         return [(st, ("normal",))]
 
